@@ -161,6 +161,19 @@ func VerifInFlightOwners(c *Channel) map[int64]int {
 	return m
 }
 
+// VerifUnstartedTopic puts a topic into the map the way GetTopic does and returns it before Start() has been called
+// (the state GetTopic is in while it asks the nsqlookupds, and LoadMetadata while it creates the channels).
+func VerifUnstartedTopic(n *NSQD, name string) *Topic {
+	n.Lock()
+	defer n.Unlock()
+	if t, ok := n.topicMap[name]; ok {
+		return t
+	}
+	t := NewTopic(name, n, func(t *Topic) { n.DeleteExistingTopic(t.name) })
+	n.topicMap[name] = t
+	return t
+}
+
 // VerifName returns the instance name the hooks use for a channel.
 func VerifName(c *Channel) string { return vc(c) }
 
